@@ -634,6 +634,12 @@ static void print_dispatch(void) {
     const carquet_cpu_info_t* c = carquet_get_cpu_info();
     printf("OK caps=%d%d%d%d%d%d%d%d%d", c->has_sse2, c->has_sse41, c->has_sse42, c->has_avx, c->has_avx2,
            c->has_avx512f, c->has_avx512bw, c->has_avx512vl, c->has_avx512vbmi);
+    /* an independent reading of the same nine features (libgcc's CPU model, which also honours OS support) */
+    __builtin_cpu_init();
+    printf(" indep=%d%d%d%d%d%d%d%d%d", !!__builtin_cpu_supports("sse2"), !!__builtin_cpu_supports("sse4.1"),
+           !!__builtin_cpu_supports("sse4.2"), !!__builtin_cpu_supports("avx"), !!__builtin_cpu_supports("avx2"),
+           !!__builtin_cpu_supports("avx512f"), !!__builtin_cpu_supports("avx512bw"), !!__builtin_cpu_supports("avx512vl"),
+           !!__builtin_cpu_supports("avx512vbmi"));
     SLOT(prefix_sum_i32); SLOT(prefix_sum_i64); SLOT(gather_i32); SLOT(gather_i64); SLOT(gather_float);
     SLOT(gather_double); SLOT(byte_split_encode_float); SLOT(byte_split_decode_float);
     SLOT(byte_split_encode_double); SLOT(byte_split_decode_double); SLOT(unpack_bools); SLOT(pack_bools);
